@@ -26,7 +26,7 @@ func VH_c09_bindings() {
 			}
 		}
 	}
-	sm.bindingNum = counter
+	vhSetBindingNum(sm, counter)
 	for _, p := range pairs {
 		if p.has {
 			sm.bindingEntries = append(sm.bindingEntries, &api.BindingEntry{Id: p.id, ServerFeature: p.server, ClientFeature: p.client})
